@@ -260,13 +260,24 @@ impl NewCase {
 
         // ---- argument-level expectations ------------------------------------------
         let usage_error = length.is_none() || threads.is_none() || !lang_ok || selector == Selector::Conflict || pclass == PrefixClass::NonHex;
-        if pclass == PrefixClass::NonHex && (o.status.ok() || printed_anything) && !crashed {
-            rep.violate(
-                "C18",
-                "nonhex-prefix-accepted",
-                "new|nonhex",
-                format!("[{engine}] `{argv}`: prefix is not hexadecimal, yet status {:?} and stdout {:?}", o.status, trunc(&stdout)),
-            );
+        if pclass == PrefixClass::NonHex {
+            // "refused" = an ordinary error and nothing printed. Printing a phrase is acceptance,
+            // and so is starting a search (the run then ends in the liveness/step bound or the
+            // watchdog, because nothing was planted for whatever is being searched for).
+            let searching = o.status == Status::Timeout || o.e2.as_ref().map(|h| matches!(h.end.as_str(), "liveness" | "budget" | "deadlock")).unwrap_or(false);
+            if o.status.ok() || printed_anything || searching {
+                rep.violate(
+                    "C18",
+                    "nonhex-prefix-accepted",
+                    "new|nonhex",
+                    format!(
+                        "[{engine}] `{argv}`: prefix is not hexadecimal, yet status {:?}, stdout {:?}{}",
+                        o.status,
+                        trunc(&stdout),
+                        if searching { " — a search was started instead of refusing the prefix" } else { "" }
+                    ),
+                );
+            }
         }
         if usage_error {
             if (o.status.ok() || printed_anything) && !crashed && pclass != PrefixClass::NonHex {
@@ -472,7 +483,32 @@ impl NewCase {
         } else {
             // several searchers: which worker's message arrives first is the scheduler's choice
             if o.status.ok() {
-                // validity, provenance and prefix were checked above
+                // validity, provenance and prefix were checked above. What remains: a failure of
+                // the source may lose the race against a result, but it may not be dropped. If the
+                // task the failure was delivered to had run to completion (so whatever it does to
+                // report the failure was done) before the winning value was even delivered to
+                // anyone, the command knew of the failure before any result existed and must fail.
+                if let (Some(h), Some((_, e))) = (&o.e2, &printed) {
+                    let hexe = hex::encode(e);
+                    let first_delivery = h.entropy.iter().filter(|ev| ev.ok && ev.bytes == hexe).map(|ev| ev.step).min();
+                    for f in &fail_events {
+                        let finished_at = h.finished_before_exit.iter().zip(h.finished_steps.iter()).find(|(t, _)| **t == f.task).map(|(_, s)| *s);
+                        if let (Some(fin), Some(win)) = (finished_at, first_delivery) {
+                            if fin < win {
+                                rep.violate(
+                                    "C12",
+                                    "entropy-failure-dropped",
+                                    "new|dropped",
+                                    format!(
+                                        "[{engine}] `{argv}`: entropy request #{} of task {} failed (errno {}) and that task had finished by step {fin}; the value that was printed ({hexe}) was first delivered at step {win}, yet the command exits 0 with a phrase",
+                                        f.seq, f.task, f.errno
+                                    ),
+                                );
+                                break;
+                            }
+                        }
+                    }
+                }
             } else if !crashed {
                 if printed_anything {
                     // reported above as output-on-failure
@@ -534,6 +570,9 @@ impl NewCase {
             rep.probe("two_or_more_workers_finished_before_exit", h.finished_before_exit.len() >= 2);
             rep.probe("worker_still_searching_at_exit", h.end == "exit" && h.unfinished_at_end > 0);
             rep.probe("entropy_failure_but_another_worker_won", fired_fail > 0 && o.status.ok());
+            let failing_finished_early = o.status.ok()
+                || h.entropy.iter().filter(|e| !e.ok).any(|f| h.finished_before_exit.contains(&f.task));
+            rep.probe("failing_worker_finished_before_exit", fired_fail > 0 && failing_finished_early && h.tasks > 2);
             rep.probe("entropy_failure_made_the_command_fail", fired_fail > 0 && !o.status.ok());
             rep.probe("device_turned_generous", h.generous_at_step.is_some());
             rep.probe("worker_died_by_panic", h.died > 0);
@@ -554,6 +593,7 @@ impl NewCase {
             "two_or_more_workers_finished_before_exit",
             "worker_still_searching_at_exit",
             "entropy_failure_but_another_worker_won",
+            "failing_worker_finished_before_exit",
             "entropy_failure_made_the_command_fail",
             "device_turned_generous",
             "worker_died_by_panic",
@@ -568,6 +608,21 @@ impl NewCase {
         let o = exec(ctx, dir, &cmd)?;
         let mut eh = Fnv::new();
         eh.write_u64(o.event_hash());
+        if self.e2.is_some() && o.status == Status::Timeout {
+            // The executor itself stopped making progress. Either the command loops without ever
+            // reaching a scheduling point (a real hang), or it blocks on a real std primitive the
+            // simulator does not control while the holder is suspended (an artefact). The real
+            // binary decides which.
+            let o1 = exec(ctx, dir, &self.cmd(true))?;
+            rep.procs += 1;
+            if o1.status != Status::Timeout {
+                return Err(HarnessError(format!(
+                    "E2 run of `{}` stopped making progress but the real binary ends with {:?}: a blocking primitive outside the seam is held across a scheduling point",
+                    cmd.argv.join(" "),
+                    o1.status
+                )));
+            }
+        }
         self.account_faults(&o, &mut rep);
         self.judge(&o, &mut rep, engine);
 
@@ -685,6 +740,21 @@ impl NewCase {
         let choices = rep.explicit_choices.clone()?;
         let mut c = self.clone();
         c.e2.as_mut().unwrap().sched = SchedSpec::trace(choices);
+        Some(c)
+    }
+
+    pub fn reseeded(&self, k: u64) -> Option<NewCase> {
+        let e2 = self.e2.as_ref()?;
+        if self.workers() < 2 {
+            return None;
+        }
+        let mut c = self.clone();
+        let horizon = e2.sched.horizon.max(64);
+        c.e2.as_mut().unwrap().sched = match k % 3 {
+            0 => SchedSpec { policy: "random".into(), seed: 0x5eed_0000 + k, param: 0, horizon, trace: vec![] },
+            1 => SchedSpec { policy: "sticky".into(), seed: 0x5eed_0000 + k, param: 192, horizon, trace: vec![] },
+            _ => SchedSpec { policy: "pct".into(), seed: 0x5eed_0000 + k, param: 2, horizon, trace: vec![] },
+        };
         Some(c)
     }
 
